@@ -26,6 +26,8 @@ func init() {
 				Doc: "Route tokens come from the full path: pathParts/hasCustomVerb are computed from Route.Path, which Build assigns from root path + route path."},
 			{ID: "C04.e", Template: "T-SIBLING", Required: true, Run: ruleC04e,
 				Doc: "The JSR311 binder reads the same match the JSR311 router made: service expression on the URL path, route expression on the final group of that match."},
+			{ID: "C04.i", Template: "T-NOPARTIAL", Required: false, Run: ruleAffixByPosition,
+				Doc: "The literal text around a variable inside one segment is cut off by position (the template says how long it is), not by searching the request token for it: the first occurrence of the suffix is not the end of the value, the last occurrence of the prefix not its start. `{name}.js` against app.json.js must bind app.json."},
 			{ID: "C04.h", Template: "T-PROV", Required: false, Run: ruleBoundFromTokens,
 				Doc: "What is bound comes from the pieces the path was cut into: a value stored in a parameter map is an element of the token slice (or joined from elements) or a group of a path expression's match, never a piece of the URL path string the binder finds again by searching or slicing it. strings.Index finds the first occurrence of the text, not the segment's position."},
 			{ID: "C04.g", Template: "T-OWN", Required: true, Run: ruleC04g,
